@@ -11,6 +11,15 @@ FIXED = {
 FIRST_USER = 32
 
 
+def refuses_issubclass(c):
+    """issubclass(_, c) raises TypeError (a typing.Protocol that is not runtime-checkable)"""
+    try:
+        issubclass(object, c)
+        return False
+    except TypeError:
+        return True
+
+
 class ClassTable:
     def __init__(self):
         self.id = dict(FIXED)
@@ -39,5 +48,6 @@ class ClassTable:
         rank = {c: r for r, c in enumerate(order)}
         out = ["hier"]
         for c, i in sorted(self.id.items(), key=lambda kv: kv[1]):
-            out.append((str(i), tuple(str(self.of(b)) for b in c.__bases__), tuple(str(self.of(b)) for b in c.__mro__), str(rank[c])))
+            out.append((str(i), tuple(str(self.of(b)) for b in c.__bases__), tuple(str(self.of(b)) for b in c.__mro__), str(rank[c]),
+                        "true" if refuses_issubclass(c) else "false"))
         return tuple(out)
